@@ -109,7 +109,10 @@ impl ReqItem {
         }
     }
     pub fn is_head(&self) -> bool {
-        self.bytes().starts_with(b"HEAD ")
+        // (a server may skip empty lines in front of the request line: what it then serves is a HEAD)
+        let b = self.bytes();
+        let start = b.iter().position(|c| *c != b'\r' && *c != b'\n').unwrap_or(b.len());
+        b[start..].starts_with(b"HEAD ")
     }
     pub fn wants_close(&self) -> bool {
         self.malformed.is_none() && self.spec.headers.iter().any(|(n, v)| n.eq_ignore_ascii_case("connection") && (v == b"close" || v == b"Close"))
